@@ -52,6 +52,15 @@ PROPS["C12"] = dict(units=["ark_encoding", "ark_ops", "ark_elligator", "ark_elem
                  "te_add_min(p,q) = 4 * te_add(p,q) coordinatewise and spec_encode is invariant under projective scaling (M-GROUP / M-DECAF), so exact-formula contracts of the minimal build and normal-form contracts of the arkworks build denote the same group element"],
     explanation="relational property decided by common specification: for every operation offered by both builds the arkworks unit and the minimal unit are verified against the same spec functions of preludes/curve_spec.rs (spec_decode, spec_encode, ell_opt, te_add, smul); byte-level results then agree")
 
+A_ARK3 = "A-ARK-3: ark_serialize default methods (deserialize_compressed -> our deserialize_with_mode -> deserialize_with_flags -> from_bigint; serialize_compressed -> serialize_with_flags) and Read/Write on byte slices as documented; the bytes->limbs loop of deserialize_with_flags (iter_mut().zip(chunks_exact)) is outside Verus and is assumed to be the little-endian conversion"
+for _p in ("C01", "C02"):
+    PROPS[_p]["units"] = list(PROPS[_p]["units"]) + ["fieldx_fq"]
+    PROPS[_p]["assumptions"] = list(PROPS[_p]["assumptions"]) + [A_ARK3]
+PROPS["C11"] = dict(units=["fieldx_fq", "fieldx_fr", "fieldx_fp", "wrap64_fq", "wrap64_fr", "wrap64_fp", "ops_fq", "ops_fr", "ops_fp"],
+    assumptions=[A_ARK1, A_ARK3, A_STD, A_WF],
+    explanation="byte/limb/bigint conversions refine the integer value: to_bytes(_le) is the little-endian form of val, from_bytes_checked accepts exactly the integers below p, from_bigint is Some iff below p, from_le_limbs/from_raw_bytes reduce mod p, From<u8..u128,bool>",
+    not_decided=["from_le_bytes_mod_order / from_be_bytes_mod_order (iterator chain chunks/map/rev/fold)", "FromStr / Display", "serialize_with_flags / deserialize_with_flags generic over Read/Write/Flags"])
+
 NOT_APPLICABLE = {
     "C15": "circuit shape / pinned Groth16 keys: the subject is the hidden ark_relations constraint store and binary key files; no pre/postcondition on a /repo function can state matrix equality across runs or SNARK verification (DESIGN.md C15)",
 }
